@@ -187,6 +187,13 @@ type world struct {
 	ids    [][]string // identifiers per order
 	linker acme.Linker
 	t0     time.Time
+	// what the oracle needs: children, owners and (virtual) expiry as stored by the code
+	ordAz   [][]int
+	ordAcct []int
+	ordExp  []int
+	azCh    [][]int
+	azExp   []int
+	faulty  bool // a storage fault was injected earlier in this history
 }
 
 var errTick = errors.New("wall clock second changed during a request")
@@ -379,17 +386,33 @@ func (w *world) discover(ctx context.Context, ids []string) {
 		}
 		w.orders = append(w.orders, oid)
 		w.ids = append(w.ids, ids)
+		virt := func(t time.Time) int { return int(t.Add(w.sh.off).Sub(w.t0) / time.Second) }
+		acct := -1
+		for i, a := range w.accs {
+			if a.ID == o.AccountID {
+				acct = i
+			}
+		}
+		w.ordAcct = append(w.ordAcct, acct)
+		w.ordExp = append(w.ordExp, virt(o.ExpiresAt))
+		var azs []int
 		for _, azID := range o.AuthorizationIDs {
 			az, err := w.db.GetAuthorization(ctx, azID)
 			if err != nil {
 				continue
 			}
+			azs = append(azs, len(w.authzs))
 			w.authzs = append(w.authzs, azID)
+			w.azExp = append(w.azExp, virt(az.ExpiresAt))
+			var chs []int
 			for _, ch := range az.Challenges {
+				chs = append(chs, len(w.chals))
 				w.chals = append(w.chals, ch.ID)
 				w.chTyp = append(w.chTyp, ch.Type)
 			}
+			w.azCh = append(w.azCh, chs)
 		}
+		w.ordAz = append(w.ordAz, azs)
 	}
 }
 
@@ -440,8 +463,83 @@ func (w *world) dump(ctx context.Context) string {
 	return os_.String() + "/" + dots + "/" + az.String() + "/" + ch.String()
 }
 
+// oracle evaluates the property itself on two consecutive dumps of the implementation's store
+// (DESIGN 3.5 step 2). It uses only what the implementation stored (children, owner, expiry)
+// and the request that was sent; "" = no clause violated.
+func (w *world) oracle(op Op, csrOK bool, prev, cur string) string {
+	pf, cf := strings.Split(prev, "/"), strings.Split(cur, "/")
+	if len(pf) != 4 || len(cf) != 4 {
+		return ""
+	}
+	at := func(s string, i int) byte {
+		if i < len(s) {
+			return s[i]
+		}
+		return 'p' // did not exist yet: created pending
+	}
+	for k, name := range []string{"order", "", "authz", "challenge"} {
+		if k == 1 {
+			continue
+		}
+		for i := 0; i < len(cf[k]); i++ {
+			a, b := at(pf[k], i), cf[k][i]
+			if (a == 'v' || a == 'i') && b != a {
+				return "VIOL:terminal-" + name
+			}
+			if a == 'r' && b == 'p' {
+				return "VIOL:backward-" + name
+			}
+			if i >= len(pf[k]) && b != 'p' && k != 0 {
+				return "VIOL:born-" + name
+			}
+		}
+	}
+	for i := 0; i < len(cf[2]) && i < len(w.azCh); i++ {
+		if cf[2][i] == 'v' && at(pf[2], i) != 'v' {
+			ok := op.Now <= w.azExp[i]
+			has := false
+			for _, c := range w.azCh[i] {
+				has = has || at(pf[3], c) == 'v'
+			}
+			if !ok || !has {
+				return "VIOL:authz-valid-cause"
+			}
+		}
+	}
+	pc, cc := strings.Split(pf[1], "."), strings.Split(cf[1], ".")
+	cnt := func(l []string, i int) string {
+		if i < len(l) && l[i] != "-" {
+			return l[i]
+		}
+		return "0"
+	}
+	for i := 0; i < len(cf[0]) && i < len(w.ordAz); i++ {
+		allValid := true
+		for _, a := range w.ordAz[i] {
+			allValid = allValid && at(cf[2], a) == 'v'
+		}
+		was, is := at(pf[0], i), cf[0][i]
+		if is == 'r' && was != 'r' && (!allValid || op.Now > w.ordExp[i] || was != 'p') {
+			return "VIOL:order-ready-cause"
+		}
+		grew := cnt(pc, i) != cnt(cc, i)
+		if is == 'v' && was != 'v' {
+			if !(op.K == "f" && op.Obj == i && op.Acct == w.ordAcct[i] && csrOK && op.CSR != "weakkey" &&
+				allValid && op.Now <= w.ordExp[i] && (was == 'r' || was == 'p') && grew) {
+				return "VIOL:order-valid-cause"
+			}
+		} else if grew && !(op.K == "f" && op.Obj == i && op.Fail) {
+			return "VIOL:certificate-without-transition"
+		}
+		if !w.faulty && cnt(cc, i) != "0" && cnt(cc, i) != "1" {
+			return "VIOL:certificates-per-order"
+		}
+	}
+	return ""
+}
+
 // exec runs one request; returns the model's op token and the implementation's step output.
-func (w *world) exec(op Op) (tok, out string, err error) {
+func (w *world) exec(op Op, prev string) (tok, out, dump string, err error) {
 	// pin the wall-clock second for the duration of the request
 	if time.Now().Nanosecond() > 850_000_000 {
 		time.Sleep(time.Duration(1_000_000_000-time.Now().Nanosecond()) * time.Nanosecond)
@@ -453,6 +551,7 @@ func (w *world) exec(op Op) (tok, out string, err error) {
 	var code int
 	var body []byte
 	var crashed bool
+	csrMatches := false
 	resp := ""
 	switch op.K {
 	case "n":
@@ -502,10 +601,11 @@ func (w *world) exec(op Op) (tok, out string, err error) {
 		how := op.CSR
 		csr, der, cerr := w.csr(op.Obj, how)
 		if cerr != nil {
-			return "", "", cerr
+			return "", "", "", cerr
 		}
 		w.sh.failOrderValid = op.Fail
-		tok = fmt.Sprintf("f:%d:%d:%d:%s%s%s", op.Acct, op.Obj, op.Now, c.B(w.csrOK(op.Obj, csr)), c.B(how != "weakkey"), c.B(op.Fail))
+		csrMatches = w.csrOK(op.Obj, csr)
+		tok = fmt.Sprintf("f:%d:%d:%d:%s%s%s", op.Acct, op.Obj, op.Now, c.B(csrMatches), c.B(how != "weakkey"), c.B(op.Fail))
 		payload, _ := json.Marshal(map[string]string{"csr": base64.RawURLEncoding.EncodeToString(der)})
 		code, body, crashed = call(acmeapi.FinalizeOrder, w.ctx(op.Acct, payload, &client{}, map[string]string{"ordID": w.id(w.orders, op.Obj)}))
 	case "l":
@@ -528,7 +628,10 @@ func (w *world) exec(op Op) (tok, out string, err error) {
 			}
 		}
 	default:
-		return "", "", fmt.Errorf("unknown op %q", op.K)
+		return "", "", "", fmt.Errorf("unknown op %q", op.K)
+	}
+	if (op.K == "f" && op.Fail) || (op.K == "r" && op.How == "dberr") {
+		w.faulty = true
 	}
 	w.sh.failOrderValid, w.sh.failChallenge = false, false
 	switch {
@@ -542,11 +645,15 @@ func (w *world) exec(op Op) (tok, out string, err error) {
 	default:
 		resp = errResp(op.K, body)
 	}
-	out = resp + "/" + w.dump(bg)
-	if !time.Now().UTC().Truncate(time.Second).Equal(realNow) {
-		return tok, out, errTick
+	dump = w.dump(bg)
+	out = resp + "/" + dump
+	if v := w.oracle(op, csrMatches, prev, dump); v != "" {
+		out += "/" + v
 	}
-	return tok, out, nil
+	if !time.Now().UTC().Truncate(time.Second).Equal(realNow) {
+		return tok, out, dump, errTick
+	}
+	return tok, out, dump, nil
 }
 
 func runCase(k *Case) (line, out string, err error) {
@@ -564,8 +671,10 @@ func runCase(k *Case) (line, out string, err error) {
 		toks := make([]string, 0, len(k.Ops))
 		outs := make([]string, 0, len(k.Ops))
 		tick := false
+		prev := "/-//"
 		for _, op := range k.Ops {
-			tok, o, eerr := w.exec(op)
+			tok, o, d, eerr := w.exec(op, prev)
+			prev = d
 			if eerr == errTick {
 				tick = true
 				break
